@@ -32,9 +32,9 @@ def _retkey(n) -> str:
     calls apart)"""
     k = getattr(n, '_retkey', None)
     if k is None:
-        import hashlib
+        # the callee as written and the number of arguments: what stays the same when the arguments are rewritten
         try:
-            d = hashlib.sha1(ast.dump(n).encode()).hexdigest()[:8]
+            d = '%s/%d' % (ast.unparse(n.func), len(n.args) + len(n.keywords)) if isinstance(n, ast.Call) else ''
         except Exception:
             d = ''
         k = '$ret:%d:%d:%s' % (getattr(n, 'lineno', 0), getattr(n, 'col_offset', 0), d)
